@@ -650,3 +650,20 @@ refactor("c18-r-nvec-names", "C18", ENV1,
             [self.instance.num_jobs, num_machine_choices],
             start=[0, -1],
         )""")
+
+refactor("c15-r-matrices", "C15", INST,
+         "        return self.jobs == other.jobs",
+         "        return (\n            self.durations_matrix == other.durations_matrix\n            and self.machines_matrix == other.machines_matrix\n        )",
+         "integer matrices determine the job structure exactly")
+mutant("c15-float-views", "C15", "R15.a", INST,
+       "        return self.jobs == other.jobs",
+       "        return np.array_equal(self.durations_matrix_array, other.durations_matrix_array, equal_nan=True) and np.array_equal(self.machines_matrix_array, other.machines_matrix_array, equal_nan=True)",
+       "seeded C15-s3: float32 views are lossy above 2**24")
+mutant("c15-private-slots-skipped", "C15", "R15.a", SOP,
+       """        return (
+            self.operation == value.operation
+            and self.start_time == value.start_time
+            and self.machine_id == value.machine_id
+        )""",
+       "        return all(getattr(self, n) == getattr(value, n) for n in self.__slots__ if not n.startswith('_'))",
+       "seeded C15-s2: machine assignment lives in a private slot")
